@@ -23,14 +23,12 @@ def ErrOK (s' : St α) : LinErr → Prop
   | .missingFiniteBounds vs => ∃ e : Exp α, vs = varsWithoutFiniteBounds e s'.bounds
   | _ => True
 
-/-- partial correctness of `x` started in `s`: on success the states are related by `R` and the value
-satisfies `post`; on failure the error was raised in a state related to `s` by `R` and satisfies `ErrOK`. -/
-def SpAt (R : St α → St α → Prop) (s : St α) (x : M α β) (post : β → Prop) : Prop :=
-  (∀ a s', x s = .ok (a, s') → R s s' ∧ post a) ∧
-  (∀ err, x s = .error err → ∃ s', R s s' ∧ ErrOK s' err)
-
-/-- partial correctness of `x` from every state. -/
-def Sp (R : St α → St α → Prop) (x : M α β) (post : β → Prop) : Prop := ∀ s, SpAt R s x post
+/-- partial correctness of `x` started in a state `s` that satisfies the invariant `I`: on success the states are
+related by `R`, the final state satisfies `I` and the value satisfies `post`; on failure the error was raised
+in a state related to `s` by `R` and satisfies `ErrOK`. -/
+def SpAt (R : St α → St α → Prop) (I : St α → Prop) (s : St α) (x : M α β) (post : β → Prop) : Prop :=
+  I s → (∀ a s', x s = .ok (a, s') → R s s' ∧ I s' ∧ post a) ∧
+    (∀ err, x s = .error err → ∃ s', R s s' ∧ ErrOK s' err)
 
 theorem bind_run (x : M α β) (f : β → M α γ) (s : St α) :
     (x >>= f) s = match x s with
@@ -43,20 +41,26 @@ theorem bind_run (x : M α β) (f : β → M α γ) (s : St α) :
   | ok p => rfl
 
 namespace SpAt
-variable {R : St α → St α → Prop}
+variable {R : St α → St α → Prop} {I : St α → Prop}
+
+/-- the invariant of the start state may be used. -/
+theorem assume {s : St α} {x : M α β} {post : β → Prop} (h : I s → SpAt R I s x post) : SpAt R I s x post :=
+  fun hI => h hI hI
 
 theorem pure (hR : IsPre R) {s : St α} {a : β} {post : β → Prop} (h : post a) :
-    SpAt R s (pure a : M α β) post := by
+    SpAt R I s (pure a : M α β) post := by
+  intro hI
   refine ⟨?_, fun err he => by cases he⟩
   intro a' s' he
   have : (Except.ok (a, s) : Except LinErr (β × St α)) = .ok (a', s') := he
   injection this with h1
   injection h1 with ha hs
   subst ha; subst hs
-  exact ⟨hR.refl _, h⟩
+  exact ⟨hR.refl _, hI, h⟩
 
 theorem fail (hR : IsPre R) {s : St α} {e : LinErr} {post : β → Prop} (h : ErrOK s e) :
-    SpAt R s (fail e : M α β) post := by
+    SpAt R I s (fail e : M α β) post := by
+  intro _
   refine ⟨fun a s' he => (by cases he), ?_⟩
   intro err he
   have : (Except.error e : Except LinErr (β × St α)) = .error err := he
@@ -65,8 +69,10 @@ theorem fail (hR : IsPre R) {s : St α} {e : LinErr} {post : β → Prop} (h : E
   exact ⟨s, hR.refl _, h⟩
 
 theorem bind (hR : IsPre R) {s : St α} {x : M α β} {f : β → M α γ} {mid : β → Prop} {post : γ → Prop}
-    (hx : SpAt R s x mid) (hf : ∀ a, mid a → ∀ s1, SpAt R s1 (f a) post) :
-    SpAt R s (x >>= f) post := by
+    (hx : SpAt R I s x mid) (hf : ∀ a, mid a → ∀ s1, SpAt R I s1 (f a) post) :
+    SpAt R I s (x >>= f) post := by
+  intro hI
+  have hx := hx hI
   constructor
   · intro c s' he
     rw [bind_run] at he
@@ -75,9 +81,9 @@ theorem bind (hR : IsPre R) {s : St α} {x : M α β} {f : β → M α γ} {mid 
     | ok p =>
       obtain ⟨a, s1⟩ := p
       rw [hxs] at he
-      obtain ⟨h1, hm⟩ := hx.1 a s1 hxs
-      obtain ⟨h2, hp⟩ := (hf a hm s1).1 c s' he
-      exact ⟨hR.trans h1 h2, hp⟩
+      obtain ⟨h1, hI1, hm⟩ := hx.1 a s1 hxs
+      obtain ⟨h2, hI2, hp⟩ := (hf a hm s1 hI1).1 c s' he
+      exact ⟨hR.trans h1 h2, hI2, hp⟩
   · intro err he
     rw [bind_run] at he
     cases hxs : x s with
@@ -89,51 +95,57 @@ theorem bind (hR : IsPre R) {s : St α} {x : M α β} {f : β → M α γ} {mid 
     | ok p =>
       obtain ⟨a, s1⟩ := p
       rw [hxs] at he
-      obtain ⟨h1, hm⟩ := hx.1 a s1 hxs
-      obtain ⟨s', h2, hp⟩ := (hf a hm s1).2 err he
+      obtain ⟨h1, hI1, hm⟩ := hx.1 a s1 hxs
+      obtain ⟨s', h2, hp⟩ := (hf a hm s1 hI1).2 err he
       exact ⟨s', hR.trans h1 h2, hp⟩
 
+/-- reading the state: the rest of the program runs in the same state, whose invariant becomes available. -/
 theorem get_bind {s : St α} {f : St α → M α γ} {post : γ → Prop}
-    (h : SpAt R s (f s) post) : SpAt R s (get >>= f) post :=
-  ⟨fun c s' he => h.1 c s' he, fun err he => h.2 err he⟩
+    (h : I s → SpAt R I s (f s) post) : SpAt R I s (get >>= f) post :=
+  fun hI => ⟨fun c s' he => (h hI hI).1 c s' he, fun err he => (h hI hI).2 err he⟩
 
 theorem set_bind (hR : IsPre R) {s s2 : St α} {f : PUnit → M α γ} {post : γ → Prop}
-    (h1 : R s s2) (h : SpAt R s2 (f PUnit.unit) post) : SpAt R s (set s2 >>= f) post := by
+    (h1 : R s s2) (hI2 : I s → I s2) (h : SpAt R I s2 (f PUnit.unit) post) : SpAt R I s (set s2 >>= f) post := by
+  intro hI
+  have h := h (hI2 hI)
   constructor
   · intro c s' he
-    obtain ⟨h2, hp⟩ := h.1 c s' he
-    exact ⟨hR.trans h1 h2, hp⟩
+    obtain ⟨h2, hI', hp⟩ := h.1 c s' he
+    exact ⟨hR.trans h1 h2, hI', hp⟩
   · intro err he
     obtain ⟨s', h2, hp⟩ := h.2 err he
     exact ⟨s', hR.trans h1 h2, hp⟩
 
 theorem set {s s2 : St α} {post : PUnit → Prop}
-    (h1 : R s s2) (hp : post PUnit.unit) : SpAt R s (set s2 : M α PUnit) post := by
+    (h1 : R s s2) (hI2 : I s → I s2) (hp : post PUnit.unit) : SpAt R I s (set s2 : M α PUnit) post := by
+  intro hI
   refine ⟨?_, fun err he => by cases he⟩
   intro c s' he
   have : (Except.ok (PUnit.unit, s2) : Except LinErr (PUnit × St α)) = .ok (c, s') := he
   injection this with h
   injection h with _ hs
   subst hs
-  exact ⟨h1, hp⟩
+  exact ⟨h1, hI2 hI, hp⟩
 
 theorem modify {s : St α} {g : St α → St α} {post : PUnit → Prop}
-    (h1 : R s (g s)) (hp : post PUnit.unit) : SpAt R s (modify g : M α PUnit) post := by
+    (h1 : R s (g s)) (hI2 : I s → I (g s)) (hp : post PUnit.unit) : SpAt R I s (modify g : M α PUnit) post := by
+  intro hI
   refine ⟨?_, fun err he => by cases he⟩
   intro c s' he
   have : (Except.ok (PUnit.unit, g s) : Except LinErr (PUnit × St α)) = .ok (c, s') := he
   injection this with h
   injection h with _ hs
   subst hs
-  exact ⟨h1, hp⟩
+  exact ⟨h1, hI2 hI, hp⟩
 
-theorem weaken {s : St α} {x : M α β} {p q : β → Prop} (h : SpAt R s x p) (hpq : ∀ a, p a → q a) :
-    SpAt R s x q := ⟨fun a s' he => ⟨(h.1 a s' he).1, hpq a (h.1 a s' he).2⟩, h.2⟩
+theorem weaken {s : St α} {x : M α β} {p q : β → Prop} (h : SpAt R I s x p) (hpq : ∀ a, p a → q a) :
+    SpAt R I s x q :=
+  fun hI => ⟨fun a s' he => ⟨((h hI).1 a s' he).1, ((h hI).1 a s' he).2.1, hpq a ((h hI).1 a s' he).2.2⟩, (h hI).2⟩
 
-/-- `for x in xs do body` (any loop whose body preserves `R`). -/
+/-- `for x in xs do body` (any loop whose body preserves `R` and `I`). -/
 theorem forIn (hR : IsPre R) {δ : Type} (xs : List δ) (init : PUnit) (body : δ → PUnit → M α (ForInStep PUnit))
-    (h : ∀ x ∈ xs, ∀ b s1, SpAt R s1 (body x b) (fun _ => True)) :
-    ∀ s, SpAt R s (forIn xs init body) (fun _ => True) := by
+    (h : ∀ x ∈ xs, ∀ b s1, SpAt R I s1 (body x b) (fun _ => True)) :
+    ∀ s, SpAt R I s (forIn xs init body) (fun _ => True) := by
   induction xs generalizing init with
   | nil =>
     intro s
